@@ -97,6 +97,12 @@ func finish(d desc, coqHead string, o cfg.Obs, marker *cfg.Marker, extra ...stri
 	texts := append(append(append([]string{}, o.Static...), o.Dynamic...), extra...)
 	spliced := false
 	if marker != nil {
+		if (d.Stream == "file-pos" || d.Stream == "dash-pos") && strings.Contains(d.Path, "/index/") {
+			// an index entry may keep one trailing direction keyword
+			m := *marker
+			m.Hostile = cfg.IdxHostile(m.S)
+			marker = &m
+		}
 		t, found := findIn(texts, marker.S)
 		if !found {
 			// the wire-level fake logs statements with white space normalised
@@ -296,8 +302,9 @@ func run(c lib.Cfg) error {
 	// how many markers per position: all in the thorough tier; in the quick tier
 	// the six basic ones on every position plus two of the others chosen by the seed
 	var k int
+	idxPos := false // the position is a table.index entry: every marker, also in the quick tier
 	pick := func() []int {
-		if c.Thorough() {
+		if c.Thorough() || idxPos {
 			ms := make([]int, len(cfg.Markers))
 			for i := range ms {
 				ms[i] = i
@@ -308,7 +315,7 @@ func run(c lib.Cfg) error {
 		// rotation, one of all markers chosen by the seed
 		safe := []int{4, 5, 7, 17}
 		k++
-		return []int{k % 4, safe[k%len(safe)], rng.Intn(len(cfg.Markers))}
+		return []int{k % 4, safe[k%len(safe)], rng.Intn(cfg.FirstIdxMarker)}
 	}
 	npos := 0
 	for _, seed := range cfg.SeedOrder {
@@ -319,9 +326,11 @@ func run(c lib.Cfg) error {
 		}
 		npos += len(pos)
 		for _, p := range pos {
+			idxPos = strings.Contains(p.Path, "/index/")
 			for _, m := range pick() {
 				descs = append(descs, desc{Stream: "file-pos", Seed: seed, Path: p.Path, Marker: m})
 			}
+			idxPos = false
 		}
 		for _, id := range identifiers(seed) {
 			for _, m := range pick() {
@@ -335,9 +344,11 @@ func run(c lib.Cfg) error {
 				if !strings.HasPrefix(p.Path, pre) {
 					continue
 				}
+				idxPos = strings.Contains(p.Path, "/index/")
 				for _, m := range pick() {
 					descs = append(descs, desc{Stream: "dash-pos", Seed: seed, Path: p.Path, Marker: m, Ig: ig})
 				}
+				idxPos = false
 			}
 			for _, id := range identifiers(seed) {
 				for _, m := range pick() {
